@@ -1,7 +1,7 @@
 """C09 — u-muP parameter tags survive any history of copies, pickling and transforms.
 
 Explorer kind H.  (1) Stateless: every sequence of length 0..3 (quick) / 0..4 (thorough)
-over a 12-operation alphabet, from each of 12 initial states, replayed on fresh objects.
+over a 15-operation alphabet, from each of 12 initial states, replayed on fresh objects.
 (2) Stateful: breadth-first search to FIXPOINT over a canonical abstract state that includes
 the implementation-hidden bits (presence of the per-instance copy/pickle hooks), giving an
 unbounded-depth result for the abstraction.  Reference model: a plain tuple
@@ -15,7 +15,7 @@ from typing import Any, Dict, List, Optional, Tuple
 
 PROPERTY = "C09"
 OPS = ["copy_p", "copy_M", "pickle_p", "pickle_M", "save_p", "save_M", "to_f64", "half",
-       "load_sd", "toggle_rg", "simulate_fp8", "unit_scale", "dump_p_keep", "dump_M_keep"]
+       "load_sd", "toggle_rg", "simulate_fp8", "unit_scale", "dump_p_keep", "dump_M_keep", "write"]
 TAGS = ["weight", "bias", "norm", "output"]
 DEPTHS = [None, 1, 7]
 MAXLEN = {"quick": 3, "thorough": 4}
@@ -25,7 +25,7 @@ RULE = (
     "fixpoint case per initial state; states = histories; non-trivial = history length >= 2"
 )
 BOUND = {
-    "quick": "all 2955 sequences of length <=3 over 14 ops x 12 initial states; BFS to fixpoint on "
+    "quick": "all 3616 sequences of length <=3 over 15 ops x 12 initial states (every earlier object of a history keeps its values and storage); BFS to fixpoint on "
     "(tag, depth, dtype, requires_grad, hook bits, transformed bit, holder class)",
     "thorough": "all 41371 sequences of length <=4 x 12 initial states; BFS to fixpoint",
 }
@@ -143,6 +143,14 @@ def _apply(op: str, M: Any, p: Any, model: Dict[str, Any], step: int) -> Tuple[A
         M.load_state_dict(twin.state_dict())
         model["values"] = twin.weight.detach().to(model["dtype"])
         return M, M.weight
+    if op == "write":
+        # an in-place update of the current object (optimizer step / manual re-initialisation)
+        with torch.no_grad():
+            p.mul_(0.5).add_(0.25)
+        model["values"] = (model["values"] * 0.5 + 0.25).to(model["dtype"])
+        if model["dtype"] == torch.float16:
+            model["approx"] = True
+        return M, p
     if op == "toggle_rg":
         p.requires_grad_(not p.requires_grad)
         model["rg"] = not model["rg"]
@@ -231,10 +239,22 @@ def _replay(tag: str, depth: Optional[int], hist: List[str], check_from: int = 0
     bad = _observe(M, p, model, lr0) if check_from == 0 else []
     if bad:
         return {"bad": bad, "at": 0}
+    ancestors: List[Any] = []  # (earlier parameter object, snapshot of its values): copies never alias their source
     for i, op in enumerate(hist):
+        p_before = p
+        snap = p.detach().clone()
         M, p = _apply(op, M, p, model, i)
+        if p is not p_before:
+            ancestors.append((p_before, snap))
         if i + 1 >= check_from:
             bad = _observe(M, p, model, lr0)
+            for q, val in ancestors:
+                if q.dtype == val.dtype and not torch.equal(q.detach(), val):
+                    bad.append("earlier_object_values_changed")
+                    break
+                if q.data_ptr() == p.data_ptr() and q.numel():
+                    bad.append("storage_shared_with_earlier_object")
+                    break
             if bad:
                 return {"bad": bad, "at": i + 1}
     key = (model["dtype"], model["rg"], model["transformed"], type(M).__name__,
